@@ -104,6 +104,25 @@ fn pub_roundtrips(ctx: &mut Ctx, pt: &(BigUint, BigUint), w: &serde_json::Value)
             o => ctx.violation(&format!("Sm2PublicKey::new:valid-{}:{}", if compressed { "compressed" } else { "uncompressed" }, oc(&o)), json!({"case": w, "bytes": hex::encode(&enc)})),
         }
     }
+    // ---- an SPKI whose BIT STRING declares 1..7 unused bits has the wrong bit length: every decoder must refuse it
+    {
+        let good = der::spki_encode(&r2::encode(&pt, false));
+        // the unused-bits octet is the first content octet of the BIT STRING, 65 bytes before the end
+        let pos = good.len() - 66;
+        for unused in [1u8, 3, 7] {
+            let mut bad = good.clone();
+            if bad[pos] != 0 {
+                break;
+            }
+            bad[pos] = unused;
+            ctx.eval();
+            ctx.class("spki_unused_bits");
+            match guard(|| Sm2PublicKey::from_public_key_der(&bad)) {
+                Outcome::Ret(Err(_)) => {}
+                o => ctx.violation(&format!("from_public_key_der:unused-bits!=0:{}", oc(&o)), json!({"case": w, "unused_bits": unused})),
+            }
+        }
+    }
     // ---- reference-built SPKI document decodes
     ctx.eval();
     let spki = der::spki_encode(&r2::encode(&pt, false));
@@ -217,6 +236,16 @@ fn key_roundtrips_private(ctx: &mut Ctx, d: &BigUint, pt: &(BigUint, BigUint), w
         match guard(|| Sm2PrivateKey::from_pkcs8_der(&doc)) {
             Outcome::Ret(Ok(s2)) if r2::from_limbs(&s2.d) == *d && same_pk(&s2.public_key, &pt) => {}
             o => ctx.violation(&format!("from_pkcs8_der:reference-document:{}", oc(&o)), json!({"case": w, "with_public": with_pub})),
+        }
+    }
+    // the embedded public key in COMPRESSED form (what `openssl pkey -ec_conv_form compressed` writes)
+    {
+        let doc = der::pkcs8_encode(&r2::b32(d), Some(&r2::encode(&pt, true)));
+        ctx.eval();
+        ctx.class("pkcs8_compressed_public_key");
+        match guard(|| Sm2PrivateKey::from_pkcs8_der(&doc)) {
+            Outcome::Ret(Ok(s2)) if r2::from_limbs(&s2.d) == *d && same_pk(&s2.public_key, &pt) => {}
+            o => ctx.violation(&format!("from_pkcs8_der:compressed-embedded-public-key:{}", oc(&o)), json!({"case": w, "doc": hex::encode(&doc)})),
         }
     }
     // a PKCS#8 document whose optional public-key field holds ANOTHER valid point: the decoder may refuse it, or decode
@@ -335,7 +364,7 @@ pub fn run(ctx: &mut Ctx) {
     for (n, ok) in r2::selftest() {
         ctx.selftest(&n, ok);
     }
-    ctx.require(&["edge_key", "random_key", "pub_coordinate_leading_zero_byte", "y_odd", "y_even", "pub_sec1", "pub_hex", "pub_spki", "priv_bytes", "priv_hex", "priv_pkcs8", "openssl_pkcs8", "openssl_spki", "openssl_sm2cipher", "asn1_encrypt", "asn1_decrypt", "asn1_zero_coord", "asn1_top_bit_set", "asn1_top_bit_clear", "reject_offcurve", "reject_coordinate_ge_p", "reject_coordinate_eq_p", "reject_wrong_length", "reject_wrong_pc_byte", "reject_priv_wrong_length", "key_from_gen_keypair", "key_with_jacobian_public_point", "crafted_pub_point", "pkcs8_foreign_public_key", "pub_point_with_zero_x"]);
+    ctx.require(&["edge_key", "random_key", "pub_coordinate_leading_zero_byte", "y_odd", "y_even", "pub_sec1", "pub_hex", "pub_spki", "priv_bytes", "priv_hex", "priv_pkcs8", "openssl_pkcs8", "openssl_spki", "openssl_sm2cipher", "asn1_encrypt", "asn1_decrypt", "asn1_zero_coord", "asn1_top_bit_set", "asn1_top_bit_clear", "reject_offcurve", "reject_coordinate_ge_p", "reject_coordinate_eq_p", "reject_wrong_length", "reject_wrong_pc_byte", "reject_priv_wrong_length", "key_from_gen_keypair", "key_with_jacobian_public_point", "crafted_pub_point", "pkcs8_foreign_public_key", "pub_point_with_zero_x", "pkcs8_compressed_public_key", "spki_unused_bits"]);
     let c = r2::curve();
     // ---- key round trips
     let n = ctx.n(150, 6000);
